@@ -12,6 +12,7 @@ RULE = ('rules mode: case = (generated relay-rules.conf with 1..6 pattern sectio
         'reference matcher\'s aggregate names of the reference ring lookup; inputs of one aggregate must share their '
         'destination set; non-trivial = name matching >=1 rule; distinct = (file, configured set, name)')
 RULE_MORE = (' Relay files have up to 16 sections, patterns use upper-case escapes and negated classes; aggregated mode also runs with name caches and several rules over one input pattern.')
+RULE_MORE = RULE_MORE + ' Round 11: empty relay-rule patterns.'
 RULE = RULE + RULE_MORE
 EXHAUSTIVE = {'quick': False, 'thorough': False}
 EXHAUSTIVE_OVER = ''
